@@ -174,6 +174,21 @@ fn serve() {
 }
 
 pub fn main() {
+    // heartbeat: tell the supervisor we are alive, but only while simulated I/O or oracle
+    // steps are actually happening
+    std::thread::spawn(|| {
+        let mut last = crate::simio::PROGRESS.load(std::sync::atomic::Ordering::Relaxed);
+        loop {
+            std::thread::sleep(std::time::Duration::from_millis(500));
+            let now = crate::simio::PROGRESS.load(std::sync::atomic::Ordering::Relaxed);
+            if now != last {
+                last = now;
+                let mut o = std::io::stdout().lock();
+                let _ = writeln!(o, "H");
+                let _ = o.flush();
+            }
+        }
+    });
     // the scenario thread has the default main-thread stack size (8 MiB)
     let h = std::thread::Builder::new().stack_size(8 << 20).name("scenario".into()).spawn(serve).unwrap();
     let _ = h.join();
